@@ -446,7 +446,7 @@ theorem write_eq (bufLen : Nat) (s : Sink) (m : Mem) (d : List UInt8) :
       if s.end_ < s.pos + d.length then ({ s with end_ := s.pos }, m, .overflow)
       else if s.pos + d.length > bufLen ∧ d.length ≠ 0 then (s, m, .valueError)
       else ({ s with pos := s.pos + d.length }, writeAt m s.pos d, .ok) := by
-  unfold Sink.write
+  unfold Sink.write Sink.writeWith
   simp only [sinkBounded_eq, sinkSticky_eq, sinkGuard_eval, Bool.true_and, decide_eq_true_eq, if_true]
   by_cases h : s.end_ < s.pos + d.length
   · have h' : (s.end_ : Int) - s.pos < d.length := by omega
@@ -504,7 +504,7 @@ theorem feed_contained {bufLen : Nat} : ∀ (chunks : List (List UInt8)) {s : Si
     | valueError => exact ⟨ok, hst, hm⟩
 
 /-- bytes handed over so far -/
-def total (chunks : List (List UInt8)) : Nat := (chunks.map List.length).sum
+def nbytes (chunks : List (List UInt8)) : Nat := (chunks.map List.length).sum
 
 theorem feed_cons (bufLen : Nat) (s : Sink) (m : Mem) (d : List UInt8) (r : List (List UInt8)) :
     feed bufLen s m (d :: r) =
@@ -522,7 +522,7 @@ theorem feed_cons (bufLen : Nat) (s : Sink) (m : Mem) (d : List UInt8) (r : List
 
 /-- a completed write consumed exactly the bytes it was given -/
 theorem feed_ok_pos {bufLen : Nat} : ∀ (chunks : List (List UInt8)) {s : Sink} {m : Mem},
-    (feed bufLen s m chunks).2.2 = .ok → (feed bufLen s m chunks).1.pos = s.pos + total chunks ∧
+    (feed bufLen s m chunks).2.2 = .ok → (feed bufLen s m chunks).1.pos = s.pos + nbytes chunks ∧
       (feed bufLen s m chunks).1.end_ = s.end_
   | [], _, _, _ => ⟨rfl, rfl⟩
   | d :: r, s, m, h => by
@@ -536,21 +536,21 @@ theorem feed_ok_pos {bufLen : Nat} : ∀ (chunks : List (List UInt8)) {s : Sink}
         obtain ⟨a, b⟩ := feed_ok_pos r h
         simp only at a b
         rw [a, b]
-        simp only [total, List.map_cons, List.sum_cons]
+        simp only [nbytes, List.map_cons, List.sum_cons]
         exact ⟨by omega, trivial⟩
 
 /-- **the bound refuses nothing that fits**: if everything the writer hands over fits in the region, the write completes -/
 theorem feed_fits {bufLen : Nat} : ∀ (chunks : List (List UInt8)) {s : Sink} {m : Mem},
-    s.pos + total chunks ≤ s.end_ → s.end_ ≤ bufLen → (feed bufLen s m chunks).2.2 = .ok
+    s.pos + nbytes chunks ≤ s.end_ → s.end_ ≤ bufLen → (feed bufLen s m chunks).2.2 = .ok
   | [], _, _, _, _ => rfl
   | d :: r, s, m, h, hb => by
-    simp only [total, List.map_cons, List.sum_cons] at h
+    simp only [nbytes, List.map_cons, List.sum_cons] at h
     rw [feed_cons, if_neg (by omega), if_neg (by omega)]
-    exact feed_fits r (by simp only [total]; omega) hb
+    exact feed_fits r (by simp only [nbytes]; omega) hb
 
 /-- conversely a write that does not fit is refused: `feed` completes only if the bytes fit in the region -/
 theorem feed_ok_fits {bufLen : Nat} {chunks : List (List UInt8)} {s : Sink} {m : Mem} (hs : SinkOK s)
-    (h : (feed bufLen s m chunks).2.2 = .ok) : s.pos + total chunks ≤ s.end_ := by
+    (h : (feed bufLen s m chunks).2.2 = .ok) : s.pos + nbytes chunks ≤ s.end_ := by
   obtain ⟨a, b⟩ := feed_ok_pos chunks h
   have := (feed_contained (bufLen := bufLen) chunks (m := m) hs).1.2
   omega
